@@ -259,25 +259,41 @@ def queries(tier):
     f2 = lambda: TxHarness(2, free_ready=True)
     f2r = lambda: TxHarness(2, free_ready=False)
     REST = ["pid", "handshake_len", "continuous", "solicited", "early", "during_rx", "one_per_transaction"]
-    for name, layer in slot_cubes(1, "Ii"):
+    # OUT transactions are enumerated by payload length (a symbolic length makes the host's framing symbolic: the 3-slot
+    # cubes then exceed the 9 GB memory cap or run for > 15 min; pinned they take seconds)
+    T = {"0": dict(kind=KIND_OUT, flag=0, olen=0), "1": dict(kind=KIND_OUT, flag=0, olen=1),
+         "2": dict(kind=KIND_OUT, flag=0, olen=2), "o": dict(kind=KIND_OUT, flag=1, olen=2, data=0xC3A5),
+         "s": dict(kind=KIND_SETUP, flag=1, data=0x0000000000010900)}
+    for name, layer in slot_cubes(1, "Ii", table=T):
         qs.append(Query(f"bmc_1slot_{name}_crc", f1, 34, layer=layer, asserts=["data_crc"], covers=[], timeout=1800,
-                        split=False, desc=f"1 IN transaction ({name}) to any endpoint, tx_ready free: CRC16 of the data packet"))
-    for name, layer in slot_cubes(2, "SIO" if tier == "quick" else "SsIiOoN"):
+                        split=False, tactic="portfolio",
+                        desc=f"1 IN transaction ({name}) to any endpoint, tx_ready free: CRC16 of the data packet"))
+    for name, layer in slot_cubes(2, "SI012" if tier == "quick" else "SsIi012oN", table=T):
         qs.append(Query(f"bmc_2slots_{name}", f2, 32 * 2 + 2, layer=layer, asserts=REST, covers=[], timeout=900, split=False,
+                        tactic="portfolio",
                         desc=f"2 transactions {name} against control + bulk IN/OUT + status endpoints, tx_ready free"))
         if "I" in name.upper() or "S" in name.upper():
             qs.append(Query(f"bmc_2slots_{name}_crc", f2r, 32 * 2 + 2, layer=layer, asserts=["data_crc"], covers=[],
-                            timeout=900, split=False, desc=f"2 transactions {name}, tx_ready = 1: CRC16 of every data packet"))
-    cubes3 = [c for c in slot_cubes(3, "SIO") if tier != "quick" or c[0] in ("SII", "SIO", "SOI", "IOI")]
+                            timeout=900, split=False, tactic="portfolio",
+                            desc=f"2 transactions {name}, tx_ready = 1: CRC16 of every data packet"))
+    # three transactions: tx_ready = 1 (a free tx_ready at this depth costs 150-350 s per assertion and several GB; it is
+    # free in all one- and two-transaction cubes above and, best effort, in a few thorough cubes)
+    pick3 = ("SII", "S1I", "S2I") if tier == "quick" else None
+    cubes3 = [c for c in slot_cubes(3, "SI12", table=T) if pick3 is None or c[0] in pick3]
     for name, layer in cubes3:
-        qs.append(Query(f"bmc_3slots_{name}", f3, 32 * 3 + 2, layer=layer, asserts=REST, covers=[], timeout=1800, split=False,
-                        desc=f"3 transactions {name} against control + bulk IN/OUT + status endpoints, tx_ready free"))
-        qs.append(Query(f"bmc_3slots_{name}_crc", f3r, 32 * 3 + 2, layer=layer, asserts=["data_crc"], covers=[],
-                        timeout=1800, split=False, desc=f"3 transactions {name}, tx_ready = 1: CRC16 of every data packet"))
+        qs.append(Query(f"bmc_3slots_{name}", f3r, 32 * 3 + 2, layer=layer, asserts=REST + ["data_crc"], covers=[],
+                        timeout=1800, split=False, tactic="portfolio", required=(tier == "quick"),
+                        desc=f"3 transactions {name} against control + bulk IN/OUT + status endpoints, tx_ready = 1"))
     if tier == "thorough":
-        for name, layer in slot_cubes(4, "SIO", first="S"):
-            if name[1:] in ("III", "IOI", "OII", "SII", "IIO", "ISI"):
+        for name, layer in slot_cubes(3, "SI1", table=T):
+            if name in ("SII", "SI1", "S1I", "I1I"):
+                qs.append(Query(f"bmc_3slots_{name}_freeready", f3, 32 * 3 + 2, layer=layer, asserts=REST, covers=[],
+                                timeout=1800, split=True, tactic="portfolio", required=False,
+                                desc=f"3 transactions {name}, tx_ready free (best effort)"))
+    if tier == "thorough":
+        for name, layer in slot_cubes(4, "SI1", first="S", table=T):
+            if name[1:] in ("III", "I1I", "1II", "SII", "II1", "ISI"):
                 qs.append(Query(f"bmc_4slots_{name}", f4r, 32 * 4 + 2, layer=layer, covers=[], timeout=1800, split=False,
-                                required=False, desc=f"4 transactions {name}, tx_ready = 1"))
+                                required=False, tactic="portfolio", desc=f"4 transactions {name}, tx_ready = 1"))
     qs.append(Query("cosim", f3, 0, kind="cosim", cosim_cycles=100 if tier == "quick" else 400))
     return qs
